@@ -80,6 +80,9 @@ def check(prog, rep, tier):
                       'lengths agree with the literal TLV bodies (symbolic TLV walk)')
     rep.rule('R08.d', 'prefix width: every prefix encoder emits ceil(length / 8) address octets for every '
                       'prefix length (finite partition 0..32 / 0..128), from a full-width address value')
+    rep.rule('R08.f', 'flowspec operator octet (encoder side, both flowspec families): for value sizes 1..8 and every '
+                      'flag combination the length code written announces exactly the number of value octets that '
+                      'follow, or the size is refused loudly')
     rep.rule('R08.e', 'fail loudly: every construct function returns bytes or raises on every path (no implicit None)')
     rep.assumptions += ['values that overflow their field after slicing and the 4096 total size are not decided',
                         'loops over input collections are checked for 0 and 1 element (length arithmetic is linear)']
@@ -849,6 +852,12 @@ def tlv_walks(prog, rep, results):
         rep.ok('R08.c', key, file=f.file, line=f.node.lineno, found='%d byte string(s) walked' % n)
     else:
         rep.undecided('R08.c', key, found='no capability path')
+
+    # ---------------------------------------------------------------- R08.f
+    from .c07 import operator_octet
+    for fsq in ('yabgp.message.attribute.nlri.ipv4_flowspec.IPv4FlowSpec',
+                'yabgp.message.attribute.nlri.ipv6_flowspec.IPv6FlowSpec'):
+        operator_octet(prog, rep, fsq, rule='R08.f', decode=False)
 
 
 def run_capability(prog, f, code, clen):
